@@ -449,6 +449,20 @@ func genC12(w *bufio.Writer, rng *hx.Rng, tier string) {
 			c12JCut(w, []cutPath{{"a", limit}}, doc)
 		}
 	})
+	// json_max_fields_size: paths that resolve to the same value / to a computed value (gjson
+	// wildcards and modifiers), on small documents, every limit
+	for _, doc := range []string{`{"a":"xxxxxxxx"}`, `{"a":"xxxxxxxx","b":"yyyy"}`, `{"b":{"a":"q\"q\"q"},"a":"zzzzzz"}`, `["s1","s2"]`} {
+		special := []string{"a", "*", "a|@this", "a.@this", "b.@tostr", "b", "b.a", "@this", "0", "#", "?", "b.*"}
+		for i, p1 := range special {
+			for limit := 0; limit <= 3; limit++ {
+				c12JCut(w, []cutPath{{p1, limit}}, []byte(doc))
+				for _, p2 := range special[i+1:] {
+					c12JCut(w, []cutPath{{p1, limit}, {p2, (limit + 1) % 4}}, []byte(doc))
+					c12JCut(w, []cutPath{{p2, limit}, {p1, limit}}, []byte(doc))
+				}
+			}
+		}
+	}
 	// RAW
 	exhaustive([]string{"a", "\n", "\r"}, pick(5, 7), func(s []byte) { c12Raw(w, s) })
 
